@@ -343,8 +343,100 @@ std::string run_hist(const std::vector<std::string> &w)
   return "HIST S=" + outcomes + " " + show_df(d) + " DOMS=" + doms;
 }
 
+// A history on ONE src_problem object:  probh <variant> <k> <op>...
+//   n/<texthex>/<strong>                       src_problem(std::istream &, typing)   (first op)
+//   r/<texthex>/<delim>/<hdr>/<trim>/<out>     data().read_csv(stream, params)
+//   x/<texthex>                                data().read_xrff(stream)
+//   s/<strong>                                 setup_symbols(typing)
+// Output: PROBH S=<outcome>,.. <training frame> VARS=.. NSYM=<symbols that are not variables> VARIABLES=<variables()>
+//         CLASSES=<classes()> RUN=..  DOMS=..     A variable whose index is not below the width of the example is NOT
+//         run (printed OOB): after a failed read the frame may not match the symbol set any more, and running it would
+//         be the caller's misuse, not the reader's.
+std::string run_probh(const std::vector<std::string> &w)
+{
+  std::unique_ptr<src_problem> prob;
+  std::string outcomes, doms;
+  const std::size_t k(std::stoul(w[2]));
+  for (std::size_t i(0); i < k && 3 + i < w.size(); ++i)
+  {
+    const auto f(split(w[3 + i], '/'));
+    try
+    {
+      std::size_t n(0);
+      if (f[0] == "n" && f.size() == 3)
+      {
+        std::istringstream is(unhex(f[1]));
+        prob = std::make_unique<src_problem>(is, f[2] == "1" ? typing::strong : typing::weak);
+        n = prob->data().size();
+      }
+      else if (!prob)
+      {
+        outcomes += "skip,";
+        continue;
+      }
+      else if (f[0] == "r" && f.size() == 6)
+      {
+        std::istringstream is(unhex(f[1]));
+        dataframe::params p;
+        p.dialect.delimiter = static_cast<char>(std::stoi(f[2]));
+        const int h(std::stoi(f[3]));
+        p.dialect.has_header = h < 0 ? pocket_csv::dialect::GUESS_HEADER
+                               : h == 0 ? pocket_csv::dialect::NO_HEADER : pocket_csv::dialect::HAS_HEADER;
+        p.dialect.trim_ws = f[4] == "1";
+        if (f[5] == "-1") p.no_output(); else p.output(static_cast<std::size_t>(std::stoull(f[5])));
+        n = prob->data().read_csv(is, p);
+      }
+      else if (f[0] == "x" && f.size() == 2)
+      {
+        const std::string text(unhex(f[1]));
+        const auto dw(split(show_dom(text)));
+        doms += dw[1] + "|" + dw[2] + "!";
+        std::istringstream is(text);
+        n = prob->data().read_xrff(is);
+      }
+      else if (f[0] == "s" && f.size() == 2)
+        n = prob->setup_symbols(f[1] == "1" ? typing::strong : typing::weak);
+      else
+        return "BADLINE";
+      outcomes += "ok" + std::to_string(n) + ",";
+    }
+    catch (const std::exception &e) { outcomes += "exn:" + exn_name(e) + ","; }
+  }
+  if (!prob)
+    return "PROBH S=" + outcomes + " NONE DOMS=" + doms;
+  const dataframe &d(prob->data());
+  std::string out("PROBH S=" + outcomes + " " + show_df(d));
+  std::vector<const variable *> vars;
+  for (const auto &s : prob->sset.symbols_)
+    if (const auto *v = dynamic_cast<const variable *>(s.get()))
+      vars.push_back(v);
+  out += " VARS=";
+  for (const auto *v : vars)
+    out += hex(v->name()) + ":" + std::to_string(v->var_) + ";";
+  out += " NSYM=" + std::to_string(prob->sset.symbols_.size() - vars.size());
+  out += " VARIABLES=" + std::to_string(d.empty() ? 0u : static_cast<unsigned>(d.begin()->input.size()));
+  out += " CLASSES=" + std::to_string(prob->classes());
+  out += " RUN=";
+  std::size_t r(0);
+  for (const auto &e : d)
+  {
+    if (r++ >= 3) break;
+    for (const auto *v : vars)
+    {
+      if (v->var_ >= e.input.size()) { out += "OOB,"; continue; }
+      i_mep ind({gene(std::pair<symbol *, std::vector<index_t>>{const_cast<variable *>(v), {}})});
+      ind.best_ = locus{0, v->category()};
+      out += show(run(ind, e.input)) + ",";
+    }
+    out += ";";
+  }
+  return out + " DOMS=" + doms;
+}
+
 std::string run_line(const std::vector<std::string> &w)
 {
+  if (w[0] == "probh" && w.size() >= 3)
+    return run_probh(w);
   if (w[0] == "path" && w.size() == 4)
     return run_path(w);
   if (w[0] == "hist" && w.size() >= 3)
